@@ -233,7 +233,8 @@ its Stop on every path — `defer`, an explicit Stop with no `return` before it,
 itself in the table (a `stop-misses-returns`, `defer-after-returns` or `none` entry fails this). -/
 theorem tie_stop_discipline : Gen.Release.stopSites.all (fun s => coveredKind s.2.2.2.1) = true := by decide
 
-/-- the reviewed table of iterator-obtaining sites: a NEW site (or a changed disposition) must be reviewed here -/
+/-- the reviewed table of iterator-obtaining sites: a NEW site (or a changed disposition) must be reviewed here
+(after the review: `python3 harness/c20/regen_reviewed_sites.py` copies the table from Gen/Release.lean) -/
 def reviewedStopSites : List (String × String × String × String × String) := [
   ("graph/check:checkPublicAssignable", "iter", "ds.ReadUsersetTuples", "owner", "filteredIter"),
   ("graph/check:checkPublicAssignable", "filteredIter", "storage.NewConditionsFilteredTupleKeyIterator", "defer", ""),
@@ -245,6 +246,7 @@ def reviewedStopSites : List (String × String × String × String × String) :=
   ("graph/check:checkTTU", "filteredIter", "storage.NewConditionsFilteredTupleKeyIterator", "defer", ""),
   ("graph/weight_two_resolver:fastPathDirect", "i", "checkutil.IteratorReadStartingFromUser", "owner", "iter"),
   ("graph/weight_two_resolver:fastPathDirect", "iter", "storage.WrapIterator", "passed+stop", "concurrency.TrySendThroughChannel"),
+  ("graph/recursive_resolver:recursiveUserset", "selfOnly", "storage.NewFilteredTupleKeyIterator", "passed", "c.recursiveFastPath"),
   ("graph/recursive_resolver:recursiveFastPath", "objectToUsersetIter", "storage.WrapIterator", "defer", ""),
   ("graph/recursive_resolver:buildRecursiveMapper", "iter", "ds.ReadUsersetTuples", "owner", "filteredIter"),
   ("graph/recursive_resolver:buildRecursiveMapper", "iter", "ds.Read", "owner", "filteredIter"),
